@@ -484,7 +484,9 @@ func (c16) Run(e *Env) {
 		if rounds < 1 {
 			rounds = 1
 		}
-		siegeLen := time.Duration(rounds)*(window+2*time.Second) + 10*time.Second
+		// a request gives up at its first failed attempt after the window has elapsed; the back-off
+		// interval before that attempt can be as long as the window itself, plus one client timeout
+		siegeLen := time.Duration(rounds)*(2*window+12*time.Second) + 10*time.Second
 		e.Event("siege mode=%d window=%v pending=%d", mode, window, len(pendingAtStart))
 		for time.Since(siegeStart) < siegeLen {
 			e.Settle()
@@ -590,6 +592,13 @@ func (c16) Run(e *Env) {
 	for _, c := range calls[target-2*cfg.Workers : target] {
 		if len(c.errs) > 0 && c.startAt.After(settleStart.Add(bound)) {
 			e.Failf("C16/healthy-flush-reports-error", "%s: flush request %d ran entirely on a healthy transport yet reported %v", kind, c.n, c.errs)
+		}
+	}
+	for i := 0; i < fab.NReqs(); i++ {
+		if fab.Req(i).Outcome == "client-aborted" {
+			// a request left unanswered past the client's timeout while time was passed in small steps
+			fault("http-hold-until-client-timeout")
+			break
 		}
 	}
 	if nFaults == 0 {
